@@ -5,13 +5,13 @@ from t2nlib import esc, SplitMix64
 import vocab
 
 
-def gen(lang, tier, seed, out, target="", sample=None):
+def gen(lang, tier, seed, out, target="", sample=None, only_fmt=False):
     rng = SplitMix64(seed)
     words = vocab.words_for(lang, SplitMix64(seed ^ 0xABCDEF))
     states = vocab.states_for(lang, tier)
     code = target + lang
     n = 0
-    for w in words:
+    for w in ([] if only_fmt else words):
         ew = esc(w)
         out.write("morph\t%s\t%s\n" % (code, ew))
         out.write("sep\t%s\t%s\n" % (code, ew))
@@ -29,7 +29,7 @@ def gen(lang, tier, seed, out, target="", sample=None):
         if not st.startswith("|0|"):
             out.write("fmt\t%s\t%s\n" % (code, st))
             n += 1
-            if rng.chance(1, 4):
+            if only_fmt or rng.chance(1, 4):
                 out.write("fmtdec\t%s\t%s\t%s\n" % (code, st, rng.choice(states)))
                 n += 1
     return n, len(words), len(states)
